@@ -73,7 +73,8 @@ func SeencheckItem(item *models.Item) error {
 	for i := range items {
 		found := false
 		for j := range outputURLs {
-			if items[i].GetURL().String() == outputURLs[j].Value {
+			// compare what was sent (URL.Raw), not the re-canonicalised text: HQ echoes the value it received
+			if items[i].GetURL().Raw == outputURLs[j].Value {
 				found = true
 				break
 			}
